@@ -18,7 +18,7 @@ BIN = os.environ.get("CORSCHECK_BIN", os.path.join(VERIF, "bin", "corscheck"))
 
 
 def run(cmd, cwd=None):
-    p = subprocess.run(cmd, cwd=cwd, env=ENV, stdout=subprocess.PIPE, stderr=subprocess.STDOUT, text=True)
+    p = subprocess.run(cmd, cwd=cwd, env=ENV, stdout=subprocess.PIPE, stderr=subprocess.STDOUT, text=True, errors="replace")
     return p.returncode, p.stdout
 
 
